@@ -294,7 +294,7 @@ func typed(e *Entry, forFile bool) (any, error) {
 			return e.Value, nil // timeout: '2s'
 		}
 		return d, nil // viper.SetDefault("timeout", 2*time.Second)
-	case e.Var == "log-level", e.Var == "beacon-node-address":
+	case e.Var == "log-level", e.Var == "beacon-node-address", e.Var == "style":
 		return e.Value, nil
 	case e.Var == "process-concurrency":
 		n, err := strconv.ParseInt(e.Value, 10, 64)
@@ -533,6 +533,148 @@ func reference(c *Case, v, path string) (winner *Entry, depth int, distinctValue
 	return winner, depth, len(values)
 }
 
+type bad struct{ sig, detail string }
+
+// The wrappers main.go uses to collect the beacon nodes an attestation / a
+// proposal needs ("takes into account the used styles in strategies, and
+// removes duplicates"): for each strategy involved, the hierarchical
+// beacon-node-addresses of strategies.<strategy>.<style> if the strategy has one
+// of its documented styles, else the top-level addresses; the union as a set.
+var wrapperStrategies = map[string][]string{
+	"wrapper:attesting": {"attestationdata"},
+	"wrapper:proposing": {"beaconblockproposal", "blindedbeaconblockproposal"},
+}
+
+var documentedStyles = map[string][]string{
+	"attestationdata":            {"best", "first", "majority"},
+	"beaconblockproposal":        {"best", "first"},
+	"blindedbeaconblockproposal": {"best", "first"},
+}
+
+func checkWrapper(c *Case, i int, lk Lookup, labels map[string]bool, nontrivial *bool) *bad {
+	labels["var:"+lk.Var] = true
+	set := map[string]bool{}
+	var consulted []string
+	for _, strategy := range wrapperStrategies[lk.Var] {
+		style := ""
+		for k := range c.Entries {
+			if c.Entries[k].Var == "style" && c.Entries[k].Path == "strategies."+strategy {
+				style = c.Entries[k].Value
+			}
+		}
+		path := ""
+		for _, s := range documentedStyles[strategy] {
+			if s == style {
+				path = "strategies." + strategy + "." + style
+			}
+		}
+		labels["wrapper-style:"+map[bool]string{true: "documented", false: "unset-or-other"}[path != ""]] = true
+		if style == "majority" && path != "" {
+			labels["wrapper-style:majority"] = true
+		}
+		consulted = append(consulted, fmt.Sprintf("%q", path))
+		want, depth, distinct := reference(c, "beacon-node-addresses", path)
+		if distinct >= 2 {
+			*nontrivial = true
+			labels["lookup-with>=2-different-values-on-path"] = true
+		}
+		if want != nil {
+			for _, a := range strings.Fields(want.Value) {
+				set[a] = true
+			}
+			if path != "" {
+				switch depth {
+				case 0:
+					labels["wrapper-resolved:top"] = true
+				case 1, 2:
+					labels["wrapper-resolved:intermediate-level"] = true
+				case 3:
+					labels["wrapper-resolved:style-level"] = true
+				}
+			}
+		}
+	}
+	var exp []string
+	for a := range set {
+		exp = append(exp, a)
+	}
+	sort.Strings(exp)
+	var res []string
+	if lk.Var == "wrapper:attesting" {
+		res = util.BeaconNodeAddressesForAttesting()
+	} else {
+		res = util.BeaconNodeAddressesForProposing()
+	}
+	gotSet := map[string]bool{}
+	for _, a := range res {
+		gotSet[a] = true
+	}
+	var got []string
+	for a := range gotSet {
+		got = append(got, a)
+	}
+	sort.Strings(got)
+	if len(got) != len(res) {
+		return &bad{lk.Var + "-duplicates", fmt.Sprintf("lookup %d: %s returned duplicates: %q", i, lk.Var, res)}
+	}
+	if strings.Join(got, " ") != strings.Join(exp, " ") {
+		return &bad{lk.Var + "-not-longest-prefix-values", fmt.Sprintf("lookup %d: %s returned %q, expected the set %q (union of the hierarchical addresses of the paths %s)",
+			i, lk.Var, res, exp, strings.Join(consulted, ", "))}
+	}
+	return nil
+}
+
+// genWrapperCase: configurations over the paths the wrappers consult.
+func genWrapperCase(t *rapid.T) Case {
+	c := Case{
+		Format:    rapid.SampledFrom([]string{"yaml", "yaml", "yaml-flow", "json"}).Draw(t, "format"),
+		BindFlags: rapid.Bool().Draw(t, "bindFlags"),
+	}
+	source := func() string {
+		return rapid.SampledFrom([]string{"config", "config", "config", "default", "env"}).Draw(t, "source")
+	}
+	addr := func() string {
+		n := rapid.IntRange(1, 2).Draw(t, "nAddr")
+		var l []string
+		for i := 0; i < n; i++ {
+			l = append(l, rapid.SampledFrom(addressPool[:4]).Draw(t, "addr"))
+		}
+		return strings.Join(l, " ")
+	}
+	if rapid.IntRange(0, 9).Draw(t, "top") < 7 {
+		c.Entries = append(c.Entries, Entry{Path: "", Var: "beacon-node-addresses", Source: source(), Value: addr()})
+	}
+	if rapid.IntRange(0, 3).Draw(t, "singularTop") == 0 {
+		c.Entries = append(c.Entries, Entry{Path: "", Var: "beacon-node-address", Source: source(), Value: rapid.SampledFrom(addressPool[:4]).Draw(t, "addr")})
+	}
+	levels := []string{"strategies"}
+	for _, strategy := range []string{"attestationdata", "beaconblockproposal", "blindedbeaconblockproposal", "aggregateattestation"} {
+		p := "strategies." + strategy
+		levels = append(levels, p, p+".best", p+".first", p+".majority")
+		if st := rapid.SampledFrom([]string{"", "best", "first", "majority", "majority", "latest"}).Draw(t, "style"); st != "" {
+			c.Entries = append(c.Entries, Entry{Path: p, Var: "style", Source: source(), Value: st})
+		}
+	}
+	density := rapid.IntRange(1, 5).Draw(t, "density")
+	for _, l := range levels {
+		if rapid.IntRange(0, 9).Draw(t, "set") < density {
+			c.Entries = append(c.Entries, Entry{Path: l, Var: "beacon-node-addresses", Source: source(), Value: addr()})
+		}
+	}
+	c.Lookups = []Lookup{{Var: "wrapper:attesting"}, {Var: "wrapper:proposing"}}
+	if rapid.Bool().Draw(t, "direct") {
+		c.Lookups = append(c.Lookups, Lookup{Var: "beacon-node-addresses", Path: rapid.SampledFrom(levels).Draw(t, "path")})
+	}
+	return c
+}
+
+func TestWrappers(t *testing.T) {
+	rapid.Check(t, func(t *rapid.T) {
+		c := genWrapperCase(t)
+		check(t, &c)
+	})
+}
+
 func kindOf(v string) string {
 	if strings.HasPrefix(v, "bool:") {
 		return "bool"
@@ -548,11 +690,16 @@ func check(t ev.TB, c *Case) {
 		t.Fatalf("harness problem: %v", err)
 	}
 
-	type bad struct{ sig, detail string }
 	var bads []bad
 	nontrivial := false
 	labels := map[string]bool{}
 	for i, lk := range c.Lookups {
+		if strings.HasPrefix(lk.Var, "wrapper:") {
+			if b := checkWrapper(c, i, lk, labels, &nontrivial); b != nil {
+				bads = append(bads, *b)
+			}
+			continue
+		}
 		want, depth, distinct := reference(c, lk.Var, lk.Path)
 		nSegs := 0
 		if lk.Path != "" {
@@ -625,6 +772,8 @@ func check(t ev.TB, c *Case) {
 			if want != nil {
 				exp = want.Value
 			}
+		case "wrapper:attesting", "wrapper:proposing":
+			// handled below
 		case "bool":
 			got = strconv.FormatBool(util.HierarchicalBool(varKey(lk.Var), lk.Path))
 			exp = "false"
